@@ -206,6 +206,23 @@ class Executor:
                 seq = [(None, (1, 'a')), ('double', (2, 'a')), (None, (1, 'a')), ('triple', (3, 'a')), ('double', (2, 'a'))]
                 if op[1] % 2:
                     seq = seq[1:]
+                if op[1] % 3 == 2:
+                    # one registry dict, edited between calls (the mapping form is consulted at conversion time)
+                    registry: t.Dict[t.Any, t.Any] = {}
+                    steps = [({}, (1, 'a')), (mul['double'], (2, 'a')), (mul['triple'], (3, 'a')), ({}, (1, 'a')), (mul['double'], (2, 'a'))]
+                    for (content, want) in steps:
+                        registry.clear()
+                        registry.update(content)
+                        self.ctx.evaluated()
+                        o = outcome(lambda: pane.from_data([1, 'a'], lit, custom=registry))
+                        o_l = outcome(lambda: pane.from_data({'k': [1]}, t.Dict[str, t.List[int]], custom=registry))
+                        want_l = {'k': [want[0]]}
+                        if o != ('ok', want) or o_l != ('ok', want_l):
+                            self.ctx.fail('handlers-are-part-of-the-question', 'registry-edited-between-calls',
+                                          f"one dict passed as custom= and edited between calls: with content {short(content, 60)} from_data([1, 'a'], (int, str)) gave "
+                                          f"{o[0]} {short(o[1], 40)} (expected {want!r}), Dict[str, List[int]] gave {o_l[0]} {short(o_l[1], 40)} (expected {want_l!r})")
+                            break
+                    return
                 for (hname, want) in seq:
                     self.ctx.evaluated()
                     o = outcome(lambda: pane.from_data([1, 'a'], lit, custom=mul[hname] if hname else None))
